@@ -161,6 +161,12 @@ def run(rep: Report, prog: Program, tier: str) -> None:
     rep.rule("R13.1", "an abort poll precedes every operation invocation of an iteration")
     rep.rule("R13.2", "an abort poll lies between a failed attempt and the sleep handler / before_sleep / sleeper")
     rep.rule("R13.3", "a true poll / AbortRetryError is final: no further work, exit by AbortRetryError (call) or stop_reason=ABORTED (execute)")
+    abort_flow(rep, "R13.1", "R13.2", "R13.3", prog)
+    rep.floor("R13.1", 40)
+    cancellation_and_timeout(rep, prog)
+
+
+def abort_flow(rep: Report, r1: str, r2: str, r3: str, prog: Program) -> None:
     res = run_runners(prog, lambda: AbortClient(prog))
     n_abort = 0
     for name, (interp, exits, client) in res.items():
@@ -169,11 +175,11 @@ def run(rep: Report, prog: Program, tier: str) -> None:
         for ex in exits:
             ph, po, ab, flags = ex.cstate
             construct = f"{name}|{ex.how}:{ex.kind}|ab={ab}"
-            rep.instance("R13.1", construct, {"runner": q, "exit": f"{ex.how}:{ex.kind}", "aborting": ab} if len(rep.samples) < 14 else None)
+            rep.instance(r1, construct, {"runner": q, "exit": f"{ex.how}:{ex.kind}", "aborting": ab} if len(rep.samples) < 14 else None)
             f1 = [f for f in flags if "without an abort poll since" in f]
             f2 = [f for f in flags if "without an abort poll after" in f]
             f3 = [f for f in flags if "after an abort" in f]
-            for rid, fs in (("R13.1", f1), ("R13.2", f2), ("R13.3", f3)):
+            for rid, fs in ((r1, f1), (r2, f2), (r3, f3)):
                 if fs:
                     for f in fs:
                         rep.fail(rid, f"{name}|{f}", f"{q}: {f}", where=prog.func(q).where(), function=q, path=short_witness(interp, ex))
@@ -181,7 +187,7 @@ def run(rep: Report, prog: Program, tier: str) -> None:
                     rep.ok(rid)
             if ab:
                 n_abort += 1
-                rep.instance("R13.3", construct)
+                rep.instance(r3, construct)
                 if name.endswith("call"):
                     ok = ex.how == "raise" and ex.kind == "AbortRetryError"
                     want = "raise AbortRetryError"
@@ -191,13 +197,14 @@ def run(rep: Report, prog: Program, tier: str) -> None:
                     ok = ex.how == "return" and fields.get("ok") == ("c", False) and fields.get("stop_reason") == ("e", "StopReason", "ABORTED")
                     want = "return an outcome with ok=False, stop_reason=ABORTED"
                 if ok:
-                    rep.ok("R13.3")
+                    rep.ok(r3)
                 else:
-                    rep.fail("R13.3", f"{name}|abort-exit|{ex.how}:{ex.kind}", f"{q}: an aborted run must {want}; found {ex.how} {ex.kind} {ex.retval}", where=prog.func(q).where(), function=q, path=short_witness(interp, ex))
+                    rep.fail(r3, f"{name}|abort-exit|{ex.how}:{ex.kind}", f"{q}: an aborted run must {want}; found {ex.how} {ex.kind} {ex.retval}", where=prog.func(q).where(), function=q, path=short_witness(interp, ex))
     if n_abort < 4:
-        raise AnalysisError(f"C13: only {n_abort} aborting exits found")
-    rep.floor("R13.1", 40)
+        raise AnalysisError(f"abort flow: only {n_abort} aborting exits found")
 
+
+def cancellation_and_timeout(rep: Report, prog: Program) -> None:
     rep.rule("R13.4", "CancelledError / KeyboardInterrupt / SystemExit raised by the operation, a sleep, a hook or a suspension point reach the runner's exit with the same kind and without any intervening callback, failure handling or new attempt")
     res = run_runners(prog, lambda: CancelClient(prog))
     n_cancel = 0
